@@ -29,6 +29,62 @@ func c06Check(c *corrCtx, class, format string, data []byte, want string, profil
 	}
 }
 
+// c06Big: profiles of several MiB (too large for the line protocol): the property's own oracle only —
+// the bytes that come back are the bytes that went in, for every container, format loader and auto.
+func c06Big(c *corrCtx) {
+	r := c.rng
+	sizes := []int{1<<20 + 1, 5 << 20}
+	if c.thorough() {
+		sizes = append(sizes, 16<<20+3, 16700000)
+	}
+	for _, n := range sizes {
+		p := make([]byte, n)
+		seed := r.next()
+		for i := range p {
+			seed = seed*6364136223846793005 + 1442695040888963407
+			p[i] = byte(seed >> 56)
+		}
+		var files []seedFile
+		pd := randPngDesc(r, true, p)
+		b, _ := pd.build()
+		files = append(files, seedFile{"png", "png", b, 0})
+		wd := randWebpDesc(r, "VP8X", p)
+		b, _ = wd.build()
+		files = append(files, seedFile{"webp", "webp", b, 0})
+		if n <= 255*65519 {
+			jd := randJpegDesc(r)
+			var szs []int
+			for rem := n; rem > 0; {
+				k := 65519
+				if k > rem {
+					k = rem
+				}
+				szs = append(szs, k)
+				rem -= k
+			}
+			jd.iccSegs = splitICC(p, szs)
+			b, _ = jd.build()
+			files = append(files, seedFile{"jpeg", "jpeg", b, 0})
+		}
+		for _, f := range files {
+			for _, ld := range []string{f.format, "auto"} {
+				md, _, err, pan := safeLoad(loaders[ld], bytes.NewReader(f.data))
+				c.stats["big/"+ld]++
+				ok := false
+				if pan == nil && err == nil && md != nil {
+					if d, e := md.ICCProfileData(); e == nil && bytes.Equal(d, p) {
+						ok = true
+					}
+				}
+				if !ok {
+					c.direct(fmt.Sprintf("C06/big/%s/%s/len%d", f.format, ld, n), "a large embedded ICC profile is not returned byte-for-byte",
+						map[string]interface{}{"loader": ld, "profile_len": n, "file_len": len(f.data), "result": metaOut(md, err, pan)})
+				}
+			}
+		}
+	}
+}
+
 func permutations(n int) [][]int {
 	if n == 1 {
 		return [][]int{{0}}
@@ -45,6 +101,7 @@ func permutations(n int) [][]int {
 
 func corrC06(c *corrCtx) {
 	r := c.rng
+	c06Big(c)
 	sizes := []int{1, 2, 3, 127, 128, 4095, 4096, 4097, 5000, 8191, 8192, 8193, 20000, 65518, 65519, 65520, 65521, 70000, 140000}
 	if c.thorough() {
 		sizes = append(sizes, 300000, 1<<20, 1<<20+1, 3<<20)
